@@ -30,6 +30,7 @@ func checkC10(ctx *Ctx, r *Report) {
 	c10NoBreakOutOfFieldLoops(ctx, r)
 	c10ConstantRefToEnum(ctx, r)
 	c10OpenAPITypedDefaults(ctx, r)
+	c10GoNestedOverrideRecurses(ctx, r)
 	inProgressRestored(ctx, r, []string{"internal/jennies/golang/rawtypes.go", "internal/jennies/java/types.go"}, 2)
 }
 
@@ -1426,4 +1427,38 @@ func c10OpenAPITypedDefaults(ctx *Ctx, r *Report) {
 	}
 	r.Count("defaults and enum values read by the OpenAPI front-end", n)
 	r.Floor("defaults and enum values read by the OpenAPI front-end", 5)
+}
+
+// c10GoNestedOverrideRecurses: a struct default that overrides a field which is itself a struct (`mid: #Mid | *{inner:
+// {a: "y"}}`) carries, for that field, a map of overrides. The branch of defaultsForStructRec that handles overrides
+// must recurse into the nested struct for such a value (as its sibling for `field.Type.Default` does); printing the map
+// with the scalar formatter yields `Inner: map[string]interface {}{"a":"y"}`, which does not compile.
+func c10GoNestedOverrideRecurses(ctx *Ctx, r *Report) {
+	fn := ctx.LookupMethod("internal/jennies/golang", "RawTypes", "defaultsForStructRec")
+	fd, p := ctx.DeclOf(fn)
+	if fd == nil {
+		r.Undecided("anchor lost: golang.RawTypes.defaultsForStructRec")
+		return
+	}
+	info := p.TypesInfo
+	n := 0
+	ast.Inspect(fd.Body, func(m ast.Node) bool {
+		is, ok := m.(*ast.IfStmt)
+		if !ok || is.Init == nil || !strings.Contains(exprString(is.Init.(*ast.AssignStmt).Rhs[0]), "extraDefaults[") {
+			return true
+		}
+		n++
+		recurses := false
+		ast.Inspect(is.Body, func(q ast.Node) bool {
+			if c, ok := q.(*ast.CallExpr); ok && callee(info, c) == fn {
+				recurses = true
+			}
+			return true
+		})
+		r.Check(recurses, "kinds/go-nested-override-recurses", "golang.defaultsForStructRec override branch", is.Pos(), "an override that is a set of field overrides for a nested struct is expanded recursively",
+			"the override branch of defaultsForStructRec never recurses: an override of a struct-typed field is printed with the scalar formatter — `Inner: map[string]interface {}{\"a\":\"y\"}` — and the generated package does not compile (Python renders the same default correctly)")
+		return true
+	})
+	r.Count("override branches of golang.defaultsForStructRec", n)
+	r.Floor("override branches of golang.defaultsForStructRec", 1)
 }
